@@ -67,6 +67,7 @@ bool prop(Tape &t, Report &R) {
     if (e.empty() || e == "skip") return true;
     return R.fail(e + " " + s.json());
   }
+  HistoryScope hist(t, R);
   GenOpts o;
   o.multiRow = false;
   o.maxCoord = (1LL << 20) - 1;
